@@ -115,13 +115,13 @@ pub fn run(ctx: &Ctx) -> Report {
                 profile.max_depth = 6;
                 profile.max_nodes = 40;
             }
-            let opts = HistoryOpts { profile: profile.clone(), len: rng.range(10, if sweep { 14 } else { 40 }) as usize, sweep, matrix: (i == 0 && w < 2) || (prop == "C12" && i % 8 == 0), api: match i % 5 { 3 => ApiKind::Bech32, 4 => ApiKind::Bech32m, _ => ApiKind::Std }, prestored: i % 4 == 1 };
+            let opts = HistoryOpts { profile: profile.clone(), len: rng.range(10, if sweep { 14 } else { 40 }) as usize, sweep, matrix: (i == 0 && w < 2) || (prop == "C12" && i % 8 == 0), api: match i % 5 { 3 => ApiKind::Bech32, 4 => ApiKind::Bech32m, _ => ApiKind::Std }, prestored: i % 4 == 1, one_address_per_code: i % 12 == 7 };
             let (case, discs) = run_history(&mut rng, &opts, &mut rep, &prop);
             rep.bump("e1/histories");
             if w == 0 && i == 1 {
-                let mut short = Case { ops: case.ops.iter().skip(17).take(2).cloned().collect(), api: case.api, prestored: case.prestored };
+                let mut short = Case { ops: case.ops.iter().skip(17).take(2).cloned().collect(), api: case.api, prestored: case.prestored, one_address_per_code: case.one_address_per_code };
                 if short.ops.is_empty() {
-                    short = Case { ops: case.ops.iter().take(2).cloned().collect(), api: case.api, prestored: case.prestored };
+                    short = Case { ops: case.ops.iter().take(2).cloned().collect(), api: case.api, prestored: case.prestored, one_address_per_code: case.one_address_per_code };
                 }
                 rep.sample(json!(short));
             }
